@@ -26,7 +26,10 @@ RULE = ('Exhaustive enumeration, no sampling: (a) every route of the API x '
         'placement <applied version> and a Vary header naming it. '
         '(d) Hypothesis-generated valid requests for every route in generated '
         'states, each replayed at all 40 versions, latest and no header: '
-        'never a 5xx, always the applied version and Vary. '
+        'never a 5xx, always the applied version and Vary; (e) generated '
+        'allocation-candidate and provider-listing queries: accepted (200) '
+        'at the first microversion whose documented syntax can express them '
+        'and at 1.39, refused (400) at the version just below. '
         'Non-trivial = a matrix cell whose expected answer is 404/405/406, or '
         'a feature probe at one of its boundary versions; distinct = distinct '
         '(route, method, version) or (feature, version).')
@@ -610,6 +613,43 @@ def generated_header_rule(ctx, svc, record):
         bgen.build_state(svc, desc, base)
         d = dump(svc.dbpath)
         snap = svc.snapshot()
+        # (e) every generated query form is accepted from the first version
+        # whose documented syntax can express it, and refused (400) by the
+        # version just below
+        for _ in range(ctx.pick(4, 10)):
+            if data.draw(hst.booleans()):
+                q = data.draw(bgen.queries(
+                    d, data.draw(hst.sampled_from([39, 39, 36, 33, 25, 17]))))
+                path, floor = '/allocation_candidates?', 10
+            else:
+                q = data.draw(bgen.rp_filters(
+                    d, data.draw(hst.sampled_from([39, 32, 24, 22, 18, 14]))))
+                path, floor = '/resource_providers?', 0
+            mv = max(q.min_version(), floor)
+            qs = q.render(mv)
+            if not qs:
+                continue
+            for ver, want in ((mv, 200), (mv - 1, 400), (39, 200)):
+                if ver < floor or (ver == mv - 1 and mv == floor):
+                    continue
+                svc.restore(snap)
+                resp = svc.request('GET', path + qs, version='1.%d' % ver)
+                stats.evaluations += 1
+                stats.count('query gate: first version 1.%d' % mv)
+                if ver == mv - 1:
+                    stats.nontriv(stable_hash([path, qs, ver]))
+                if resp.status != want:
+                    record(Violation(
+                        {'clause': 'query-form-%s' % (
+                            'accepted-below-its-first-version'
+                            if want == 400 else
+                            'refused-at-a-version-that-documents-it'),
+                         'first_version': mv},
+                        {'request': 'GET %s%s @1.%d' % (path, qs, ver),
+                         'status': resp.status, 'want': want,
+                         'detail': (resp.detail() or '')[-200:]}),
+                        {'kind': 'gate', 'state': desc, 'path': path + qs,
+                         'version': ver, 'want': want, 'first': mv})
         for _ in range(ctx.pick(3, 8)):
             req = c15.valid_request(data.draw, d)
             for ver in versions:
@@ -799,6 +839,17 @@ def replay(ctx, data):
             return [{'signature': v.signature, 'detail': v.detail}]
         return [{'signature': {'clause': 'replayed-cell'}, 'detail': None}] \
             if bad else []
+    if data.get('kind') == 'gate':
+        from pv import bgen
+        base = machine.base_snapshot(svc)
+        bgen.build_state(svc, data['state'], base)
+        resp = svc.request('GET', data['path'],
+                           version='1.%d' % data['version'])
+        if resp.status != data['want']:
+            return [{'signature': {'clause': 'query-form-gate',
+                                   'first_version': data['first']},
+                     'detail': {'status': resp.status}}]
+        return []
     if data.get('kind') == 'generated':
         from pv import bgen
         base = machine.base_snapshot(svc)
